@@ -41,6 +41,7 @@ type ufEvent struct {
 	F   string `json:"f"`
 	K   string `json:"k"`
 	C   int    `json:"c"`
+	RR  string `json:"rr"`
 	Obs struct {
 		Writes  []ufWrite `json:"writes"`
 		Dials   int       `json:"dials"`
@@ -52,7 +53,20 @@ type ufEvent struct {
 	} `json:"obs"`
 }
 type ufBehaviour struct {
-	Hist []ufEvent `json:"hist"`
+	Hist  []ufEvent `json:"hist"`
+	Scope bool      `json:"scope"`
+}
+
+func ufRoutingResult(rr string) *bpfRoutingResult {
+	switch rr {
+	case "cpr1":
+		return &bpfRoutingResult{Outbound: uint8(consts.OutboundControlPlaneRouting), Dscp: 1}
+	case "g1":
+		return &bpfRoutingResult{Outbound: uint8(consts.OutboundUserDefinedMin)}
+	case "g2":
+		return &bpfRoutingResult{Outbound: uint8(consts.OutboundUserDefinedMin) + 1}
+	}
+	return &bpfRoutingResult{Outbound: uint8(consts.OutboundControlPlaneRouting)}
 }
 
 type ufConn struct {
@@ -250,6 +264,7 @@ func ufRunOne(b *ufBehaviour, m *RoutingMatcher, res *verifutil.Result, bseed in
 	SetFailedQuicDcidCache(newFailedQuicDcidCache(failedQuicDcidCacheShardCount))
 	time.Sleep(125 * time.Millisecond) // events fall between two janitor ticks
 	env := &ufEnv{}
+	trail0 := ""
 	log := verifLogger()
 	gopt := &dialer.GlobalOption{Log: log, CheckInterval: time.Hour}
 	var dialers []*dialer.Dialer
@@ -266,6 +281,10 @@ func ufRunOne(b *ufBehaviour, m *RoutingMatcher, res *verifutil.Result, bseed in
 	cp.routingMatcher = m
 	cp.outbounds = groups
 	cp.soMarkFromDae = 0x100
+	cp.udpRouteScopeSensitive = b.Scope
+	if b.Scope {
+		trail0 = "[routing looks at packet metadata] "
+	}
 	defer func() {
 		cancel()
 		DefaultUdpEndpointPool.Reset()
@@ -280,6 +299,9 @@ func ufRunOne(b *ufBehaviour, m *RoutingMatcher, res *verifutil.Result, bseed in
 	}()
 
 	var trail []string
+	if trail0 != "" {
+		trail = append(trail, trail0)
+	}
 	sent := map[int][]byte{} // packet id -> bytes as the client sent them
 	flowOf := map[int]string{}
 	delivered := map[int]int{} // packet id -> real transport
@@ -311,7 +333,7 @@ func ufRunOne(b *ufBehaviour, m *RoutingMatcher, res *verifutil.Result, bseed in
 			data := ufDatagram(ev.F, ev.K, npk, rand.New(rand.NewSource(bseed+int64(ev.F[0]))))
 			sent[npk] = append([]byte(nil), data...)
 			flowOf[npk] = ev.F
-			trail = append(trail, fmt.Sprintf("#%d %s:%s", npk, ev.F, ev.K))
+			trail = append(trail, fmt.Sprintf("#%d %s:%s/%s", npk, ev.F, ev.K, ev.RR))
 			// what the ingress loop of control_plane.go does before the task is queued
 			dec := ClassifyUdpFlow(ufSrc, fl.dst, data)
 			if dec.IsQuicInitial {
@@ -321,7 +343,7 @@ func ufRunOne(b *ufBehaviour, m *RoutingMatcher, res *verifutil.Result, bseed in
 				fail("|classify", "datagram #%d (%s) classified IsQuicInitial=%v", npk, ev.K, dec.IsQuicInitial)
 				return
 			}
-			rr := &bpfRoutingResult{Outbound: uint8(consts.OutboundControlPlaneRouting)}
+			rr := ufRoutingResult(ev.RR)
 			func() {
 				defer func() {
 					if r := recover(); r != nil {
